@@ -1202,7 +1202,8 @@ func (store *KeyStore) generateAndCacheSymmetricKey(keyName string, keyContext k
 // GetSymmetricKey return symmetric key with specific identifier
 func (store *KeyStore) readEncryptedKey(filename string, keyContext keystore.KeyContext) ([]byte, error) {
 	encryptedSymKey, ok := store.Get(filename)
-	if !ok {
+	// nil value is left in the cache by key destruction, the key (if any) has to be read from the file
+	if !ok || encryptedSymKey == nil {
 		return store.loadKeyAndCache(filename, keyContext, func() ([]byte, error) {
 			return store.ReadKeyFile(store.GetPrivateKeyFilePath(filename))
 		})
